@@ -193,6 +193,8 @@ func apathD(v ssa.Value, d int) string {
 		return fmt.Sprintf("call(%s)", calleeShort(x))
 	case *ssa.Extract:
 		return fmt.Sprintf("%s#%d", apathD(x.Tuple, d+1), x.Index)
+	case *ssa.Lookup:
+		return apathD(x.X, d+1) + "{" + idxPath(x.Index, d+1) + "}"
 	case *ssa.TypeAssert:
 		return apathD(x.X, d+1) + ".(" + types.TypeString(x.AssertedType, func(*types.Package) string { return "" }) + ")"
 	}
@@ -229,7 +231,11 @@ func stripConvs(v ssa.Value) ssa.Value {
 
 func calleeShort(c *ssa.Call) string {
 	if sc := c.Common().StaticCallee(); sc != nil {
-		return sc.Name()
+		n := sc.Name()
+		if i := strings.IndexByte(n, '['); i > 0 {
+			n = n[:i]
+		}
+		return n
 	}
 	if c.Common().IsInvoke() {
 		return c.Common().Method.Name()
